@@ -135,6 +135,13 @@ MUTANTS = {
         ('src/peripheral/broker/fx_tracker.rs', 'if other_fxt.amount.is_zero() {', 'if other_fxt.amount.is_sign_negative() && other_fxt.amount.is_sign_positive() {')]),
     'c05_etrade_zero_division': ('C05', ['find_sell_to_cover_trade_set|division#1|divisor-is-not-zero'], [
         ('src/peripheral/etrade_plan_pdf_tx_extract_impl.rs', 'let avg_price = if total_shares.is_zero() {', 'let avg_price = if total_val.is_zero() {')]),
+    'c05_optional_group_required': ('C05', ['parse_pre_ms_2023_trade_confirmations|required-group|commission'], [
+        ('src/peripheral/broker/etrade.rs', 'commission: h.opt_dec_group("commission")?.unwrap_or(Decimal::ZERO)\n                + h.opt_dec_group("fee")?.unwrap_or(Decimal::ZERO),\n            currency: crate::portfolio::Currency::usd(),\n            memo: String::new(),\n            exchange_rate: None,\n            affiliate: crate::portfolio::Affiliate::default(),\n            row_num: (i + 1)',
+         'commission: h.dec_group("commission")?\n                + h.opt_dec_group("fee")?.unwrap_or(Decimal::ZERO),\n            currency: crate::portfolio::Currency::usd(),\n            memo: String::new(),\n            exchange_rate: None,\n            affiliate: crate::portfolio::Affiliate::default(),\n            row_num: (i + 1)')]),
+    'c05_group_made_optional': ('C05', ['SplitRatio::parse|required-group|2'], [
+        ('src/portfolio/model/tx.rs', 'r"^\\s*([\\d\\.]+)-for-([\\d\\.]+)\\s*$"', 'r"^\\s*([\\d\\.]+)(?:-for-([\\d\\.]+))?\\s*$"')]),
+    'c05_pattern_hole_with_alternation': ('C05', ['search_for_rows|required-group|rowvalue1'], [
+        ('src/peripheral/broker/etrade.rs', 'search_for_dec_rows("Comission/Fee", true, body)?', 'search_for_dec_rows("Comission/Fee|Commission/Fee", true, body)?')]),
     # ------------------------------------------------------------------ C06
     'c06_trade_year': ('C06', ['R6c|portfolio::cumulative_gains::calc_security_cumulative_capital_gains|year'], [
         ('src/portfolio/cumulative_gains.rs', 'let year = d.tx.settlement_date.year();', 'let year = d.tx.trade_date.year();')]),
